@@ -1,7 +1,8 @@
 """C11 - parent links are right and removed objects are fully detached.
 
 Correspondence with M-Cross (lean/DefconModel/Cross.lean = M-Parents, lean/DefconModel/Parents.lean, composed with
-the cross links of the notification wiring) + direct oracle.
+the cross links of the notification wiring; the model's dump shows the STORED wiring `Cross.OState`, changed at the
+events at which component.py changes its registrations) + direct oracle.
 
 The implementation adaptor drives the REAL defcon objects (Font, LayerSet, Layer, Glyph, Contour,
 Component, Anchor, Guideline, Image, Lib) in process.  A case is a history of operations on a small
